@@ -23,6 +23,7 @@ BUDGET = {
     "quick": {"examples": 200, "shards": 4, "case_timeout": 60, "wall_budget": 240},
     "thorough": {"examples": 5000, "shards": 16, "case_timeout": 120, "wall_budget": 1800},
 }
+FUZZ = {"thorough": dict(runs=20000, procs=8, wall_s=600)}
 TOLERANCES = {"grid_states/shared_times/ys0": "bit-identical", "interior_interpolant": "4 ulp (relative 4*eps)"}
 
 
